@@ -368,3 +368,122 @@ pub fn drive_decrypt_faults(t: &mut Tracer, tier: &str, seed: u64, plan: Option<
         }
     }
 }
+
+// ---------------------------------------------------------------- C15 key agreement
+use gm_sm2::exchange::Exchange;
+use gm_sm2::p256_ecc::{g_mul, Point};
+use gm_sm2::u256::U256;
+
+pub fn u256_be(a: &U256) -> Vec<u8> { let mut v = vec![]; for i in (0..4).rev() { v.extend_from_slice(&a[i].to_be_bytes()); } v }
+pub fn be_u256(b: &[u8]) -> U256 { let mut a = [0u64; 4]; for i in 0..4 { a[3 - i] = u64::from_be_bytes(b[i * 8..i * 8 + 8].try_into().unwrap()); } a }
+pub fn pt_json(p: &Point) -> Value { json!({"x": bytes(&u256_be(&p.x)), "y": bytes(&u256_be(&p.y)), "z": bytes(&u256_be(&p.z))}) }
+/// (lambda^2 X, lambda^3 Y, lambda Z): another representation of the same point (input construction through the hook wrappers)
+pub fn rerandomize(p: &Point, lam: &U256) -> Point {
+    let l2 = verif::fp_mont_mul(lam, lam);
+    let l3 = verif::fp_mont_mul(&l2, lam);
+    Point { x: verif::fp_mont_mul(&p.x, &l2), y: verif::fp_mont_mul(&p.y, &l3), z: verif::fp_mont_mul(&p.z, lam) }
+}
+fn tamper_point(p: &Point, kind: &str, rng: &mut Rng) -> Point {
+    match kind {
+        "other" => { let mut k = rng.bytes(32); k[0] &= 0x7f; g_mul(&be_u256(&k)) }
+        "offcurve" => { let mut q = *p; q.y[0] ^= 1; q }
+        "infinity" => Point::zero(),
+        "bitflip" => { let mut q = *p; q.x[1] ^= 1 << 17; q }
+        _ => { let mut l = rng.bytes(32); l[0] &= 0x7f; l[31] |= 1; rerandomize(p, &verif::fp_to_mont(&be_u256(&l))) }
+    }
+}
+fn tamper_hash(h: &[u8; 32], kind: &str, rng: &mut Rng) -> [u8; 32] {
+    let mut o = *h;
+    match kind { "other" | "offcurve" => { o = b32(&rng.bytes(32)); } "infinity" => { o = [0u8; 32]; } "rerand" => {} _ => { o[5] ^= 0x10; } }
+    o
+}
+fn hooked<T: Send + 'static>(f: impl FnOnce() -> gm_sm2::error::Sm2Result<T> + Send + 'static, script: Vec<[u8; 32]>) -> (Outcome<T>, Vec<Vec<u8>>) {
+    let out = guard_timed(20, move || {
+        verif::rng_script(script);
+        let _ = verif::rng_take_log();
+        let r = f();
+        let log = verif::rng_take_log();
+        verif::rng_script(vec![]);
+        r.map(|v| (v, log))
+    });
+    match out {
+        Outcome::Ok((v, log)) => (Outcome::Ok(v), log.iter().filter(|e| e.accepted).map(|e| e.candidate.to_vec()).collect()),
+        Outcome::Err(e) => (Outcome::Err(e), vec![]), Outcome::Panic(e) => (Outcome::Panic(e), vec![]), Outcome::Timeout => (Outcome::Timeout, vec![]),
+    }
+}
+
+struct KxRun { t_ra: bool, t_rb: bool, t_sb: bool, t_sa: bool, kind: String, klen: usize, ida: String, idb: String, ra_script: Vec<[u8; 32]>, rb_script: Vec<[u8; 32]>, da: Vec<u8>, db: Vec<u8> }
+
+fn kx_run(t: &mut Tracer, sess: &str, run: &KxRun, rng: &mut Rng) {
+    use std::sync::{Arc, Mutex};
+    let (ka, kb) = match (key_from(&run.da), key_from(&run.db)) { (Some(a), Some(b)) => (a, b), _ => return };
+    let mk = |me: &Key, id: &str, other: &Key, oid: &str| Exchange::new(run.klen, Some(id), &me.sk.public_key, &me.sk, Some(oid), &other.sk.public_key);
+    let (a, b) = match (mk(&ka, &run.ida, &kb, &run.idb), mk(&kb, &run.idb, &ka, &run.ida)) { (Ok(a), Ok(b)) => (Arc::new(Mutex::new(a)), Arc::new(Mutex::new(b))), _ => return };
+    let common = json!({"prop": "C15", "pkA": bytes(&ka.pk65), "pkB": bytes(&kb.pk65), "idA": bytes(run.ida.as_bytes()), "idB": bytes(run.idb.as_bytes()), "klen": run.klen});
+    let with = |extra: Value| { let mut m = common.clone(); for (k, v) in extra.as_object().unwrap() { m[k] = v.clone(); } m };
+    let tam = |flag: bool| if flag { run.kind.clone() } else { "none".to_string() };
+    // step 1
+    let a1 = a.clone();
+    let (o1, ks1) = hooked(move || a1.lock().unwrap().exchange_1(), run.ra_script.clone());
+    let ra = match o1.ok() { Some(p) => *p, None => { t.emit(sess, "kx.step1", with(json!({"r": [], "ra_out": pt_json(&Point::zero()), "outcome": o1.name(), "detail": o1.detail()}))); return; } };
+    let r_a = ks1.last().cloned().unwrap_or_default();
+    t.emit(sess, "kx.step1", with(json!({"r": bytes(&r_a), "ra_out": pt_json(&ra), "outcome": "ok", "detail": ""})));
+    let ra_recv = if run.t_ra { tamper_point(&ra, &run.kind, rng) } else { ra };
+    // step 2
+    let b2 = b.clone();
+    let (o2, ks2) = hooked(move || b2.lock().unwrap().exchange_2(&ra_recv), run.rb_script.clone());
+    let r_b = ks2.last().cloned().unwrap_or_default();
+    let key_b = b.lock().unwrap().verif_state().0.unwrap_or_default();
+    let (rb, sb) = match o2.ok() { Some((p, s)) => (*p, *s), None => (Point::zero(), [0u8; 32]) };
+    t.emit(sess, "kx.step2", with(json!({"d": bytes(&kb.d), "r": bytes(&r_b), "ra_in": pt_json(&ra_recv), "rb_out": pt_json(&rb), "sb": bytes(&sb), "key": bytes(&key_b),
+        "tamper": tam(run.t_ra), "outcome": o2.name(), "detail": o2.detail()})));
+    if o2.ok().is_none() { return; }
+    let rb_recv = if run.t_rb { tamper_point(&rb, &run.kind, rng) } else { rb };
+    let sb_recv = if run.t_sb { tamper_hash(&sb, &run.kind, rng) } else { sb };
+    // step 3
+    let a3 = a.clone();
+    let (o3, _) = hooked(move || a3.lock().unwrap().exchange_3(&rb_recv, sb_recv), vec![]);
+    let key_a = a.lock().unwrap().verif_state().0.unwrap_or_default();
+    let sa = o3.ok().cloned().unwrap_or([0u8; 32]);
+    let t3 = if run.t_rb || run.t_sb { run.kind.clone() } else if run.t_ra { format!("after-{}", run.kind) } else { "none".into() };
+    t.emit(sess, "kx.step3", with(json!({"d": bytes(&ka.d), "r": bytes(&r_a), "rb_in": pt_json(&rb_recv), "sb_in": bytes(&sb_recv), "sa": bytes(&sa), "key": bytes(&key_a),
+        "tamper": t3, "outcome": o3.name(), "detail": o3.detail()})));
+    // step 4: the adversary delivers SA (possibly altered), or junk if A sent nothing
+    let sa_recv = if o3.ok().is_none() { b32(&rng.bytes(32)) } else if run.t_sa { tamper_hash(&sa, &run.kind, rng) } else { sa };
+    let b4 = b.clone();
+    let (o4, _) = hooked(move || b4.lock().unwrap().exchange_4(sa_recv, &ra_recv), vec![]);
+    let acc = o4.ok().cloned().unwrap_or(false);
+    let t4 = if o3.ok().is_none() { "injected".to_string() } else if run.t_sa { run.kind.clone() } else if run.t_ra || run.t_rb || run.t_sb { format!("after-{}", run.kind) } else { "none".into() };
+    t.emit(sess, "kx.step4", with(json!({"d": bytes(&kb.d), "r": bytes(&r_b), "ra_in": pt_json(&ra_recv), "sa_in": bytes(&sa_recv), "accepted": if acc { 1 } else { 0 },
+        "tamper": t4, "outcome": o4.name(), "detail": o4.detail()})));
+}
+
+pub fn drive_kex(t: &mut Tracer, tier: &str, seed: u64, plan: Option<String>) {
+    let thorough = tier == "thorough";
+    let mut rng = Rng(seed ^ 0x5215);
+    let mut n = 0u64;
+    let mut sess = || { n += 1; format!("sm2kx/{}", n) };
+    let rk = |rng: &mut Rng| { let mut d = rng.bytes(32); d[0] &= 0x7f; d };
+    // Annex example: scripted rA, rB, klen 16, both IDs "1234567812345678"
+    let annex = KxRun { t_ra: false, t_rb: false, t_sb: false, t_sa: false, kind: "none".into(), klen: 16, ida: "1234567812345678".into(), idb: "1234567812345678".into(),
+        ra_script: vec![b32(&hexb("d4de15474db74d06491c440d305e012400990f3e390c7e87153c12db2ea60bb3"))],
+        rb_script: vec![b32(&hexb("7e07124814b309489125eaed101113164ebf0f3458c5bd88335c1f9d596243d6"))],
+        da: hexb("81eb26e941bb5af16df116495f90695272ae2cd63d6c4ae1678418be48230029"), db: hexb("785129917d45a9ea5437a59356b82338eaadda6ceb199088f14ae10defa229b5") };
+    kx_run(t, &sess(), &annex, &mut rng);
+    // honest runs: klen 1..=200 (sampled in quick), random and edge keys, free ephemeral scalars
+    let klens: Vec<usize> = if thorough { (1..=200).collect() } else { vec![1, 16, 31, 32, 33, 64, 100, 200] };
+    for (i, klen) in klens.iter().enumerate() {
+        let run = KxRun { t_ra: false, t_rb: false, t_sb: false, t_sa: false, kind: "none".into(), klen: *klen, ida: format!("alice{}", i), idb: if i % 3 == 0 { "1234567812345678".into() } else { format!("bob-{}", i) },
+            ra_script: vec![], rb_script: vec![], da: rk(&mut rng), db: rk(&mut rng) };
+        kx_run(t, &sess(), &run, &mut rng);
+    }
+    // every tamper subset x kind from the TLC plan
+    for (i, v) in read_plan(&plan).iter().enumerate() {
+        let reps = if thorough { 3 } else { 1 };
+        for _ in 0..reps {
+            let run = KxRun { t_ra: v["ra"] == 1, t_rb: v["rb"] == 1, t_sb: v["sb"] == 1, t_sa: v["sa"] == 1, kind: v["kind"].as_str().unwrap().into(), klen: 16 + (i % 40),
+                ida: "initiator".into(), idb: "responder".into(), ra_script: vec![], rb_script: vec![], da: rk(&mut rng), db: rk(&mut rng) };
+            kx_run(t, &sess(), &run, &mut rng);
+        }
+    }
+}
